@@ -523,6 +523,29 @@ def m_int_into_number(ex, st, callee, args, dest_ty):
     yield st, Opaque("FeelNumber", args[0].e)
 
 
+def m_btree_eq(ex, st, callee, args, dest_ty):
+    """<BTreeMap<Name, V> as PartialEq>::eq for maps of concrete size: same size, same keys, equal values (V's own eq, merged)"""
+    (_, a), (_, b) = _map_ref(ex, st, args[0]), _map_ref(ex, st, args[1])
+    na, nb = ex.concrete(a.len), ex.concrete(b.len)
+    if na is None or nb is None:
+        raise MirUnsupported("equality of maps of symbolic size")
+    if na != nb:
+        yield st, mk_bool(False)
+        return
+    m = re.match(r"^<BTreeMap<(.*), (.*)> as PartialEq>::eq$", callee)
+    vty = m.group(2) if m else "Value"
+    body = ex.resolve("<%s as PartialEq>::eq" % vty)
+    conj = []
+    for x, y in zip(a.items[:na], b.items[:nb]):
+        conj.append(_rank(x.fields[0]) == _rank(y.fields[0]))
+        ra, rb = Ref(ex.new_cell(st, x.fields[1], "eq")), Ref(ex.new_cell(st, y.fields[1], "eq"))
+        o = ex._merged_call(st, body, [ra, rb]) if body is not None else None
+        if o is None:
+            raise MirUnsupported("value equality inside a map could not be summarised")
+        conj.append(o.value.e)
+    yield st, mk_bool(z3.simplify(z3.And(conj)) if conj else True)
+
+
 def m_box_borrow(ex, st, callee, args, dest_ty):
     v = deref(ex, st, args[0]) if False else args[0]
     # &Box<T> -> &T : a Box is modelled as a Ref to its heap cell
@@ -548,7 +571,7 @@ VALUE_MODELS = [
     (R(r"^core::slice::<impl \[.*\]>::first$"), m_slice_first),
     (R(r"^Option::<&.*>::cloned$"), m_opt_cloned),
     (R(r"^core::slice::<impl \[.*\]>::get::<usize>$"), m_slice_get),
-    (R(r"^<&(mut )?Vec<.*> as IntoIterator>::into_iter$"), m_vec_into_iter_ref),
+    (R(r"^<&(mut )?(Vec<.*>|\[.*\]) as IntoIterator>::into_iter$"), m_vec_into_iter_ref),
     (R(r"^<Vec<.*> as IntoIterator>::into_iter$"), m_vec_into_iter_owned),
     (R(r"^<std::vec::IntoIter<.*> as Iterator>::next$"), m_iter_next),
     (R(r"^<(i|u)(\d+|size) as Into<FeelNumber>>::into$|^<FeelNumber as From<(i|u)(\d+|size)>>::from$"), m_int_into_number),
@@ -564,6 +587,130 @@ VALUE_MODELS = [
     (R(r"^<std::collections::btree_map::Keys<.*> as IntoIterator>::into_iter$"), m_into_iter_id),
     (R(r"^<std::collections::btree_map::Keys<.*> as ExactSizeIterator>::len$|^BTreeMap::<.*>::len$"), m_btree_len),
     (R(r"^BTreeMap::<.*>::get::<.*>$"), m_btree_get),
+    (R(r"^<BTreeMap<.*> as PartialEq>::eq$"), m_btree_eq),
     (R(r"^<Box<.*> as Borrow<.*>>::borrow$|^<Box<.*> as Deref>::deref$|^<Box<.*> as AsRef<.*>>::as_ref$"), m_box_borrow),
     (R(r"^<(dmntk_feel::)?Name as PartialEq>::(eq)$"), m_name_eq),
+]
+
+
+# --- iterator adaptors with closures executed from their MIR bodies (hit-policy code) -----------------------------------------
+
+
+def _call_closure(ex, st, f, argv):
+    from mir.models import call_fn_value
+    yield from call_fn_value(ex, st, f, argv)
+
+
+def m_iter_adapt(ex, st, callee, args, dest_ty):
+    kind = re.search(r" as Iterator>::(filter|map|filter_map)::<", callee).group(1)
+    yield st, Opaque("Adapt", kind, (args[0], args[1]))
+
+
+def adapt_items(ex, st, it):
+    """generator of (state, list of produced items) for SliceIter / adaptor chains (everything from the current position)"""
+    if it.sort == "SliceIter":
+        def rec(st, cur, acc):
+            progressed = False
+            for st2, it2, r in iter_next(ex, st, cur):
+                if ex.concrete(r.disc) == 0:
+                    yield st2, acc
+                else:
+                    yield from rec(st2, it2, acc + [r.alts["Some"][0]])
+        yield from rec(st, it, [])
+        return
+    if it.sort == "Adapt":
+        inner, f = it.info
+        for st2, items in adapt_items(ex, st, inner):
+            def rec2(st, k, acc):
+                if k == len(items):
+                    yield st, acc
+                    return
+                x = items[k]
+                arg = Ref(ex.new_cell(st, x, "adapt")) if it.e == "filter" else x
+                for o in _call_closure(ex, st, f, [arg]):
+                    if o.kind != "return":
+                        raise MirUnsupported("iterator closure did not return: %r" % (o,))
+                    v = o.value
+                    if it.e == "filter":
+                        for st3 in ex.branch(o.st, v.e):
+                            yield from rec2(st3, k + 1, acc + [x])
+                        for st3 in ex.branch(o.st, z3.Not(v.e)):
+                            yield from rec2(st3, k + 1, acc)
+                    elif it.e == "map":
+                        yield from rec2(o.st, k + 1, acc + [v])
+                    else:  # filter_map
+                        for st3 in ex.branch(o.st, v.disc == 1):
+                            yield from rec2(st3, k + 1, acc + [v.alts["Some"][0]])
+                        for st3 in ex.branch(o.st, v.disc != 1):
+                            yield from rec2(st3, k + 1, acc)
+            yield from rec2(st2, 0, [])
+        return
+    raise MirUnsupported("items of %r" % (it,))
+
+
+def m_collect_vec(ex, st, callee, args, dest_ty):
+    for st2, items in adapt_items(ex, st, args[0]):
+        yield st2, VecV(z3.IntVal(len(items)), items, "collected")
+
+
+def m_iter_position(ex, st, callee, args, dest_ty):
+    r, f = args
+    it = ex.read(st, r.cell, r.projs)
+    for st2, items in adapt_items(ex, st, it):
+        def rec(st, k):
+            if k == len(items):
+                yield st, none()
+                return
+            for o in _call_closure(ex, st, f, [items[k]]):
+                if o.kind != "return":
+                    raise MirUnsupported("position closure did not return")
+                for st3 in ex.branch(o.st, o.value.e):
+                    yield st3, some(mk_int(k, "usize"))
+                for st3 in ex.branch(o.st, z3.Not(o.value.e)):
+                    yield from rec(st3, k + 1)
+        yield from rec(st2, 0)
+
+
+def m_sort_by(ex, st, callee, args, dest_ty):
+    """slice::sort_by: a stable sort; modelled as insertion sort calling the comparator closure (the order of comparisons of
+    std's merge sort differs, the result of a stable sort with a consistent comparator does not)"""
+    r, f = args
+    base = r
+    while isinstance(ex.read(st, base.cell, base.projs), Ref):
+        base = ex.read(st, base.cell, base.projs)
+    v = ex.read(st, base.cell, base.projs)
+    n = ex.concrete(v.len)
+    if n is None:
+        raise MirUnsupported("sort_by on a vector of symbolic length")
+
+    def insert(st, sorted_items, x, pos):
+        # find the place of x scanning from the right: stop at the first element that is not Greater than x
+        if pos == 0:
+            yield st, [x] + sorted_items
+            return
+        y = sorted_items[pos - 1]
+        ca, cb = Ref(ex.new_cell(st, y, "cmp")), Ref(ex.new_cell(st, x, "cmp"))
+        for o in _call_closure(ex, st, f, [ca, cb]):
+            if o.kind != "return":
+                raise MirUnsupported("comparator did not return")
+            for st2 in ex.branch(o.st, o.value.disc == 1):   # y > x : x goes before y
+                yield from insert(st2, sorted_items, x, pos - 1)
+            for st2 in ex.branch(o.st, o.value.disc != 1):
+                yield st2, sorted_items[:pos] + [x] + sorted_items[pos:]
+
+    def rec(st, k, acc):
+        if k == n:
+            ex.write(st, base.cell, base.projs, VecV(z3.IntVal(n), acc, v.elem_ty))
+            yield st, UNIT
+            return
+        for st2, acc2 in insert(st, acc, v.items[k], len(acc)):
+            yield from rec(st2, k + 1, acc2)
+    yield from rec(st, 0, [])
+
+
+VALUE_MODELS += [
+    (R(r"^<std::slice::Iter(Mut)?<.*> as Iterator>::(filter|map|filter_map)::<.*>$"), m_iter_adapt),
+    (R(r"^<(std::iter::)?(Filter|Map|FilterMap)<.*> as Iterator>::collect::<Vec<.*>>$"), m_collect_vec),
+    (R(r"^<std::slice::Iter<.*> as Iterator>::position::<.*>$"), m_iter_position),
+    (R(r"^(core|std)::slice::<impl \[.*\]>::sort_by::<.*>$"), m_sort_by),
 ]
